@@ -684,6 +684,19 @@ func coordinate(s *Spec, tier string, seed uint64, workers int, plan Plan, ks []
 		fmt.Printf("KNOWN-FINDING: property=%s %s (%d runs) e.g. %s\n", s.Property, k, merged.Known[k], merged.KnownMsg[k])
 	}
 	sort.Slice(merged.Violations, func(i, j int) bool { return merged.Violations[i].Run < merged.Violations[j].Run })
+	seenV := map[string]bool{}
+	var keepV []violation
+	for _, v := range merged.Violations {
+		// one line (and one replay file) per distinct (class, key): every worker stops at its
+		// first violation, so the same defect is usually found several times
+		if seenV[v.Class+"\x00"+v.Key] {
+			os.Remove(v.Replay)
+			continue
+		}
+		seenV[v.Class+"\x00"+v.Key] = true
+		keepV = append(keepV, v)
+	}
+	merged.Violations = keepV
 	for _, v := range merged.Violations {
 		fmt.Printf("VIOLATION property=%s replay=%s\n", s.Property, v.Replay)
 		fmt.Printf("  class=%s key=%q run=%d: %s\n", v.Class, v.Key, v.Run, v.Msg)
